@@ -43,6 +43,10 @@ type TrafficControllerMap map[string][]*TrafficShapingController
 var (
 	tcGenFuncMap = make(map[trafficControllerGenKey]TrafficControllerGenFunc, 6)
 	tcMap        = make(TrafficControllerMap)
+	// refTcMap maps a referenced resource to the controllers of the associated-resource rules
+	// (of any resource) that keep a statistic of their own: that statistic counts the passes of
+	// the REFERENCED resource. Derived from tcMap, rebuilt with it, guarded by tcMux.
+	refTcMap = make(TrafficControllerMap)
 	tcMux        = new(sync.RWMutex)
 	nopStat      = &standaloneStatistic{
 		reuseResourceStat: false,
@@ -222,6 +226,7 @@ func onRuleUpdate(rawResRulesMap map[string][]*Rule) (err error) {
 
 	tcMux.Lock()
 	tcMap = m
+	rebuildRefTcMapLocked()
 	tcMux.Unlock()
 	currentRules = rawResRulesMap
 
@@ -290,6 +295,7 @@ func onResourceRuleUpdate(res string, rawResRules []*Rule) (err error) {
 	} else {
 		tcMap[res] = newResTcs
 	}
+	rebuildRefTcMapLocked()
 	tcMux.Unlock()
 	currentRules[res] = rawResRules
 	logging.Debug("[Flow onResourceRuleUpdate] Time statistic(ns) for updating flow rule", "timeCost", util.CurrentTimeNano()-start)
@@ -312,6 +318,7 @@ func LoadRulesOfResource(res string, rules []*Rule) (bool, error) {
 		// clear tcMap
 		tcMux.Lock()
 		delete(tcMap, res)
+		rebuildRefTcMapLocked()
 		tcMux.Unlock()
 		logging.Info("[Flow] clear resource level rules", "resource", res)
 		return true, nil
@@ -514,6 +521,27 @@ func getTrafficControllerListFor(name string) []*TrafficShapingController {
 	defer tcMux.RUnlock()
 
 	return tcMap[name]
+}
+
+// rebuildRefTcMapLocked derives refTcMap from tcMap; the caller holds tcMux for writing.
+func rebuildRefTcMapLocked() {
+	m := make(TrafficControllerMap)
+	for _, tcs := range tcMap {
+		for _, tc := range tcs {
+			if tc.rule != nil && tc.rule.RelationStrategy == AssociatedResource && !tc.boundStat.reuseResourceStat {
+				m[tc.rule.RefResource] = append(m[tc.rule.RefResource], tc)
+			}
+		}
+	}
+	refTcMap = m
+}
+
+// getStandaloneAssociatedControllersFor returns the controllers whose own statistic is fed by passes of ref.
+func getStandaloneAssociatedControllersFor(ref string) []*TrafficShapingController {
+	tcMux.RLock()
+	defer tcMux.RUnlock()
+
+	return refTcMap[ref]
 }
 
 func calculateReuseIndexFor(r *Rule, oldResTcs []*TrafficShapingController) (equalIdx, reuseStatIdx int) {
